@@ -8,6 +8,41 @@ from . import common
 VALUE_EQ = "<grass_compiler::value::Value as std::cmp::PartialEq>::eq"
 
 
+ENTRY = {}  # (v1, v2) -> entry block of the arm that handles exactly this pair (filled by the last pair_matrix call)
+
+
+def arm_signature(prog, body, entry):
+    """What an arm compares: {('cmp', type), ('len',), ('rec',)} over the blocks reachable from its entry (and the closures built there)."""
+    from ..facts import norm
+    region = common.reach_from(body, entry)
+    sig = set()
+    bodies = [(body, region)]
+    for bb, i, pl, rv, st in body.assignments():
+        if bb in region and rv["k"] == "agg" and rv.get("agg") == "closure":
+            cb = prog.bodies.get(norm(rv["def"]))
+            if cb is not None:
+                bodies.append((cb, None))
+    for b_, reg in bodies:
+        for c in b_.calls():
+            if reg is not None and c.bb not in reg:
+                continue
+            t2 = an.tail2(c.callee)
+            nm = c.name() or ""
+            if nm.endswith("value::Value::not_equals") or nm == VALUE_EQ or (t2 in ("PartialEq::eq", "PartialEq::ne") and c.fn_args and c.fn_args[0].lstrip("&").endswith("value::Value")):
+                sig.add(("rec",))
+            elif t2 in ("PartialEq::eq", "PartialEq::ne") and c.fn_args:
+                sig.add(("cmp", c.fn_args[0].lstrip("&").split("<")[0].rsplit("::", 1)[-1]))
+        for bb, i, pl, rv, st in b_.assignments():
+            if reg is not None and bb not in reg:
+                continue
+            if rv["k"] == "binop" and rv["op"] in ("Eq", "Ne"):
+                for side in ("a", "b"):
+                    src = an.trace_operand(b_, Operand(rv[side]))
+                    if src.root[0] == "call" and an.tail2(src.root[1]) in ("Vec::len", "slice::len", "<[T]>::len") or "len()" in repr(src):
+                        sig.add(("len",))
+    return sig
+
+
 def pair_matrix(body, want_const):
     """For a two-level `match self { V1 => match other { V2 => .. } }`:
     {(v1, v2): 'const' if the result is the constant `want_const` on every path of that pair, else 'maybe'}.
@@ -23,6 +58,7 @@ def pair_matrix(body, want_const):
     names = list(variants.values())
     arms = common.switch_arms(body, sw, variants)
     M = {}
+    ENTRY.clear()
     for v1 in names:
         t1 = arms[v1]
         region = common.reach_from(body, t1)
@@ -45,6 +81,8 @@ def pair_matrix(body, want_const):
                 t2 = arms2.get(v2, arms2["_"])
                 vals = common.ret_consts_from(body, t2, limit=400)
                 M[(v1, v2)] = "const" if vals == {want_const} else "maybe"
+                if v2 in arms2:
+                    ENTRY[(v1, v2)] = t2
             # bypass check
             bypass = common.reach_from_avoiding(body, t1, {sw2})
             exits = {b for b in bypass if body.term(b)["k"] == "return"}
@@ -93,6 +131,31 @@ def rule_a(ctx):
                 r.violate(key, "Value::not_equals(%s, %s) is constant true although (%s == %s) can be true: map-remove disagrees with ==" % (a, b, a, b), ne.loc())
             else:
                 r.ok(key)
+    # where both functions handle a pair in an arm of their own, the two arms compare the same things (De Morgan duals):
+    # a comparison present in == but missing from not_equals (or the reverse) makes map-remove disagree with ==
+    ne_entry = dict(ENTRY)
+    pair_matrix(eq, False)
+    eq_entry = dict(ENTRY)
+    ns = 0
+    for pair in sorted(set(ne_entry) & set(eq_entry)):
+        if M[pair] != "maybe" or N.get(pair) != "maybe":
+            continue
+        se, sn = arm_signature(prog, eq, eq_entry[pair]), arm_signature(prog, ne, ne_entry[pair])
+        # reviewed equivalence: `SassNumber == SassNumber` is the unit-aware comparison of the two Numbers and Units that not_equals spells out
+        for sg in (se, sn):
+            if ("cmp", "SassNumber") in sg:
+                sg.discard(("cmp", "SassNumber"))
+                sg.update({("cmp", "Number"), ("cmp", "Unit")})
+        if not se and not sn:
+            continue
+        ns += 1
+        key = "eq-vs-not_equals|%s|%s|compared-attributes" % pair
+        if se == sn:
+            r.ok(key, compares=sorted(map(str, se)))
+        else:
+            r.violate(key, "for (%s, %s) `==` compares %s but not_equals compares %s: the two disagree on values that differ only in %s, so map-remove (not_equals) "
+                      "and map-get/has-key (==) see different keys" % (pair[0], pair[1], sorted(map(str, se)), sorted(map(str, sn)), sorted(map(str, se ^ sn))), ne.loc())
+    r.floor("variant pairs handled by both == and not_equals", ns, 3)
     return r
 
 
